@@ -336,6 +336,43 @@ def opt_alt_full(u0: int, u1: int, u2: int, alt: int, pos: int, twice: bool) -> 
     return _opt_alt(14, u0, u1, u2, alt, pos, twice)
 
 
+def _alt_multi_concrete(ports, xa, xb, reps, a0f, a1f):
+    """reps two-micro-op instructions, then one instruction with two alternative port assignments; one pass"""
+    from harness._ports import build_kernel
+    x = [(1, xa), (1, xb)]
+    sem, model, kernel = build_kernel(ports, [list(x) for _ in range(reps)] + [[(1, a0f)]])
+    a0, a1 = uop(ports, 1, a0f), uop(ports, 1, a1f)
+    kernel[-1].port_uops = {0: [a0], 1: [a1]}
+    kernel[-1].port_pressure = model.average_port_pressure({0: [a0], 1: [a1]})
+    sem.assign_optimal_throughput(kernel)
+    ok = totals_ok(kernel, ArchSemantics.get_throughput_sum(kernel))
+    n = len(ports)
+    for f in kernel[:-1]:
+        ok = ok and hall_ok(n, x, f.port_pressure, 0.01 + 1e-6)
+    last = kernel[-1]
+    chosen = [o for o in ([(1, a0f)], [(1, a1f)]) if last.port_uops == [uop(ports, *o[0])]]
+    ok = ok and len(chosen) == 1 and hall_ok(n, chosen[0], last.port_pressure, 0.01 + 1e-6)
+    return ok, True, {"two_uop_instruction": [list(xa), list(xb)], "repeated": reps, "alternatives": [list(a0f), list(a1f)], "pressure": [list(f.port_pressure) for f in kernel]}
+
+
+def opt_alt_multi(xa: int, xb: int, reps: int, a0: int, a1: int) -> bool:
+    """
+    pre: 0 <= xa < 7 and 0 <= xb < 7 and 1 <= reps <= 3 and 0 <= a0 < 7 and 0 <= a1 < 7
+    post: _
+    """
+    # the instruction with alternatives is NOT the first line and follows instructions with two micro-ops
+    # (nested / overlapping port sets): the trial run for the alternative must not touch the real kernel
+    lo, hi = shard(49)
+    if not (lo <= xa * 7 + xb < hi):
+        return True
+    if a0 == a1:
+        return True
+    if skip({"alternatives": True}):
+        return True
+    ok, nt, sample = native(_alt_multi_concrete, list(PORTS3), tuple(SUB3[pick(xa, 7)]), tuple(SUB3[pick(xb, 7)]), pick(reps - 1, 3) + 1, tuple(SUB3[pick(a0, 7)]), tuple(SUB3[pick(a1, 7)]))
+    return verdict(ok, nontrivial=nt, sample=sample)
+
+
 def opt_half(u0: int, v0: int, h0: bool, h1: bool, twice: bool) -> bool:
     """
     pre: 0 <= u0 < 7 and 0 <= v0 < 7
@@ -413,6 +450,7 @@ CELLS = {
     "opt_1x1x1": {"fn": opt_1x1x1, "bound": "3 single-micro-op instructions over 14 forms; 1 or 2 passes; with/without multi-character port", "budget": {"quick": 170, "thorough": 600}, "shards": 14},
     "opt_2x2": {"fn": opt_2x2, "tiers": ("thorough",), "bound": "two instructions with 2 micro-ops each over 14 forms (38416 kernels) x 1/2 passes", "budget": {"thorough": 1500}, "shards": 49},
     "opt_alt": {"fn": opt_alt, "bound": "3 single-micro-op instructions over the 7 one-cycle forms, the instruction at each position with a second alternative port assignment (dict port_uops); 1 or 2 passes", "budget": {"quick": 170, "thorough": 900}, "shards": 16},
+    "opt_alt_multi": {"fn": opt_alt_multi, "bound": "1-3 copies of a two-micro-op instruction (every pair of the 7 port sets) followed by an instruction with two alternative port assignments (every ordered pair of port sets); one balancing pass; Hall condition for every instruction", "budget": {"quick": 170, "thorough": 600}, "shards": 16},
     "opt_alt_full": {"fn": opt_alt_full, "tiers": ("thorough",), "bound": "same over all 14 forms (two-cycle forms included)", "budget": {"thorough": 1800}, "shards": 48},
     "shipped": {"fn": shipped, "bound": "16 shipped example/test kernels on zen1/zen2/tx2 x {uniform, one pass, two passes}: per-instruction feasibility against the micro-ops the analysis reports (memory-composed forms on models with multipliers: bounds with the smallest and largest multiplier; the exact scaling is C08's), totals = column sums",
                 "budget": {"quick": 170, "thorough": 300}, "shards": 16},
